@@ -19,7 +19,7 @@ ASSUMES = ['Python == on keys is modelled by py_eq (bool/int/Decimal numeric tow
 
 # includes values whose CPython hashes collide although they differ (hash(-1) == hash(-2), hash(2**61-1) == hash(0))
 POOL = [None, 0, 1, 2, -1, -2, True, False, 'a', 'b', 'ab', 'x y', decimal.Decimal('1.0'), decimal.Decimal('2.50'), 'é☃',
-        2 ** 61 - 1]
+        2 ** 61 - 1, '', '1']
 NAMES = ['k', 'a', 'b', 'c1', 'c2', 'v.1', 'n*']
 
 
@@ -182,6 +182,9 @@ def run_impl(case):
     rows = rows_dec(case['rows'])
     res = mk_resource('t', case['names'], rows, pk=case.get('pk'),
                       types=dict((n, 'any') for n in case['names']))
+    if case['kind'] == 'filter_old':
+        # the schema's missing-value tokens do not enter into the comparison: conditions compare Python values
+        res['missingValues'] = ['', 'a'] if len(case['rows']) % 2 else None
     out = run_stream([res], step_of(case))
     if 'error' in out:
         return {'error': out['error'], 'exc': out['exc']}
